@@ -24,10 +24,8 @@ def check_bake_identity(rep, facts, rule):
             p = r['path']
             if p.end == 'raise':
                 continue
-            for ev in p.events:
-                if ev[0] != 'setitem' or ev[2] != C('imm'):
-                    continue
-                v = ev[3]
+            for v, at in IS.stored_immediates(p):
+                ev = (None, None, None, v, at)
                 while v[0] == 'res':
                     v = v[3]
                 evals = IS.find_all(v, lambda t: (t[0] == 'mcall' and t[2] == 'eval' and len(t[3]) == 3) or
